@@ -59,7 +59,8 @@ def transform(desc, kind, rng):
         # <species>_<id>-like object names, numeric suffixes in family names (exercises the natural sort)
         po = {l: f"X{rng.randrange(10)}_{i + 7}" for i, l in enumerate(rng.sample(ol, len(ol)))}
         ps = {l: f"Sp{i + 3}" for i, l in enumerate(rng.sample(sl, len(sl)))}
-        pf = {f: f"f{n}" for f, n in zip(fams, rng.sample([2, 10, 9, 100, 33, 7], len(fams)))}
+        # numeric suffixes (natural sort) and names that differ only by letter case (canonical order must still be total)
+        pf = {f: n for f, n in zip(fams, rng.sample(["f2", "f10", "F10", "f9", "F9", "f100", "Fa", "fa", "f7"], len(fams)))}
         d["ot"], d["st"] = rename_tree(d["ot"], po), rename_tree(d["st"], ps)
         d["leafmap"] = {po[k]: ps[v] for k, v in d["leafmap"].items()}
         if d.get("leafsyn"):
@@ -148,7 +149,22 @@ def canon_set(res, io, isp, ifam, ordered):
     return {canon(o, io, isp, ifam, ordered) for o in res}
 
 
+def proc_outputs(pdesc, algo, cc):
+    outs = []
+    for hs in ("1", "4242", "7"):
+        env = dict(os.environ, PYTHONHASHSEED=hs)
+        p = subprocess.run([sys.executable, "-m", "checks.c09_proc"], input=json.dumps({"desc": pdesc, "algo": algo, "costs": cc}),
+                           capture_output=True, text=True, env=env, timeout=300)
+        outs.append(p.stdout if p.returncode == 0 else f"ERR {p.stderr[-300:]}")
+    return outs
+
+
 def replay(data):
+    if data.get("proc"):
+        outs = proc_outputs(data.get("pdesc") or data["item"]["desc"], data["item"]["algo"], data["costs"])
+        bad = len(set(outs)) != 1 or outs[0].startswith("ERR")
+        print("  fresh processes", "disagree" if bad else "agree")
+        return bad
     cf = concrete_failures(data["item"], H.cost_unjson(data["costs"]), data.get("delta", 0))
     for t in cf:
         print("  reproduced:", t)
@@ -236,7 +252,7 @@ def worker(item):
                     "signature": {"kind": kind, "algo": algo, "desc": desc},
                     "data": {"item": item, "costs": H.cost_json(cc), "delta": dv}, "confirmed": bool(cf)})
                 break
-            if kind == "again" and len(out["witnesses"]) < item.get("nwit", 0) and a is not None:
+            if kind in ("again", "rename") and len(out["witnesses"]) < item.get("nwit", 0) and a is not None:
                 out["witnesses"].append(H.cost_json(H.concrete_costs(costs, ctx.model_values())))
             if out["sample"] is None and ctx.npaths >= 2:
                 out["sample"] = {"input": desc, "algo": algo, "transformation": kind, "transformed_input": d2,
@@ -247,20 +263,16 @@ def worker(item):
         out["status"] = "inconclusive"
         out["reason"] = str(e)
     # fresh-process determinism on solver witnesses (sampling, stated)
+    pdesc = d2 if kind == "rename" else desc       # the renamed input carries the awkward names
     for cc in out["witnesses"]:
         out["obligations"] += 1
-        outs = []
-        for hs in ("1", "4242"):
-            env = dict(os.environ, PYTHONHASHSEED=hs)
-            p = subprocess.run([sys.executable, "-m", "checks.c09_proc"], input=json.dumps({"desc": desc, "algo": algo, "costs": cc}),
-                               capture_output=True, text=True, env=env, timeout=300)
-            outs.append(p.stdout if p.returncode == 0 else f"ERR {p.stderr[-300:]}")
-        if outs[0] == outs[1] and not outs[0].startswith("ERR"):
+        outs = proc_outputs(pdesc, algo, cc)
+        if len(set(outs)) == 1 and not outs[0].startswith("ERR"):
             out["discharged"] += 1
         else:
-            out["violations"].append({"kind": "process-determinism", "text": f"{algo}: two fresh processes (PYTHONHASHSEED 1 / 4242) disagree on {desc} costs {cc}",
-                                      "signature": {"kind": "process-determinism", "algo": algo, "desc": desc},
-                                      "data": {"item": item, "costs": cc, "proc": True}, "confirmed": True})
+            out["violations"].append({"kind": "process-determinism", "text": f"{algo}: fresh processes (PYTHONHASHSEED 1 / 4242 / 7) disagree on {pdesc} costs {cc}",
+                                      "signature": {"kind": "process-determinism", "algo": algo, "desc": pdesc},
+                                      "data": {"item": item, "costs": cc, "proc": True, "pdesc": pdesc}, "confirmed": True})
     out["fresh_process_pairs"] = len(out.pop("witnesses"))
     out["nontrivial"] = out["forks"] > 0
     out["item"] = {"desc": desc, "algo": algo, "kind": kind}
@@ -286,7 +298,7 @@ def main(argv=None):
                 sym = [n for n in (SR.DHS if sup else ["dup", "hgt"]) if not (hinf and n == "hgt")]
                 fixed = {"spe": 0, "floss": 1, **({"hgt": "inf"} if hinf else {})}
             it = {"desc": d, "algo": algo, "kind": kind, "tseed": rng.randrange(10 ** 9), "sym": sym, "fixed": fixed, "section": section,
-                  "max_paths": 8000 if q else 40000, "budget_s": 150.0 if q else 900.0, "nwit": 1 if (q and rng.random() < 0.3) else (0 if q else 2)}
+                  "max_paths": 8000 if q else 40000, "budget_s": 150.0 if q else 900.0, "nwit": 1 if (q and rng.random() < 0.4) else (0 if q else 2)}
             if kind == "scale":
                 it["k"] = rng.choice([2, 3, 7])
             if kind == "mono":
